@@ -360,6 +360,10 @@ func (w *World) InsertRows(table string, n int) {
 	}
 	s := w.S
 	key := strings.ToLower(t.Name)
+	if len(t.Rowids) > 0 && t.Rowids[len(t.Rowids)-1] >= math.MaxInt64-1000000 {
+		// after the maximum rowid SQLite allocates rowids at random: never rely on it
+		w.hasMax[key] = true
+	}
 	alias := rowidAliasCol(t)
 	var cols []int
 	for i, c := range t.Columns {
@@ -602,7 +606,10 @@ func (w *World) Step() {
 	case 8: // rename table
 		nn := w.newName("r")
 		w.Begin()
-		w.Exec("ALTER TABLE " + gen.Quote(t.Name) + " RENAME TO " + gen.Quote(nn))
+		if w.Exec("ALTER TABLE " + gen.Quote(t.Name) + " RENAME TO " + gen.Quote(nn)) {
+			w.hasMax[strings.ToLower(nn)] = w.hasMax[strings.ToLower(t.Name)]
+			w.longKey[strings.ToLower(nn)] = w.longKey[strings.ToLower(t.Name)]
+		}
 		w.Commit()
 	case 9:
 		w.Exec("VACUUM")
